@@ -308,6 +308,58 @@ theorem deliver_perm_invariant (ord₁ ord₂ : List Group → List Group) (h₁
   | rescue a r n => rfl
   | whitelist a op v => rfl
 
+/-- every delivered message keeps every tally well-formed -/
+theorem deliver_wf (ord : List Group → List Group) (vals : List Validator) (s : BState) (m : Msg)
+    (hwf : OStateWF s.oracle) : OStateWF (deliver ord vals s m).1.oracle := by
+  by_cases hm : m.isClaim = true
+  · cases m with
+    | claim cm =>
+      rcases deliver_claim_cases ord vals s cm with ⟨f, hd⟩ | ⟨s', status, hc, hd⟩
+      · rw [hd]; exact hwf
+      · rw [hd]
+        obtain ⟨o, fin, hp, eo, _⟩ := createClaim_ok hc
+        simp only
+        rw [eo]
+        exact processClaim_wf hwf hp
+    | lock pm => simp [Msg.isClaim] at hm
+    | burn pm => simp [Msg.isClaim] at hm
+    | pause a p => simp [Msg.isClaim] at hm
+    | blacklist a l => simp [Msg.isClaim] at hm
+    | cethReceiver a r => simp [Msg.isClaim] at hm
+    | rescue a r n => simp [Msg.isClaim] at hm
+    | whitelist a op v => simp [Msg.isClaim] at hm
+  · have hp := deliver_nonclaim_prophecies ord vals s m (by simpa using hm)
+    intro p hpm
+    rw [hp] at hpm
+    exact hwf p hpm
+
+/-- the validator sets a history installs have distinct operator addresses -/
+def StepsWF : List Step → Prop
+  | [] => True
+  | .setVals v :: rest => ValsWF v ∧ StepsWF rest
+  | .msg _ :: rest => StepsWF rest
+
+/-- Well-formedness is an invariant of every history, and the whole history — every intermediate state and result —
+    is independent of the iteration orders: "the outcome never depends on map iteration order". -/
+theorem run_perm_invariant (ord₁ ord₂ : List Group → List Group) (h₁ : ∀ l, (ord₁ l).Perm l) (h₂ : ∀ l, (ord₂ l).Perm l)
+    (steps : List Step) (w : World) (hv : ValsWF w.vals) (hwf : OStateWF w.s.oracle) (hs : StepsWF steps) :
+    run ord₁ w steps = run ord₂ w steps ∧ OStateWF (run ord₁ w steps).s.oracle := by
+  induction steps generalizing w with
+  | nil => exact ⟨rfl, hwf⟩
+  | cons st rest ih =>
+    cases st with
+    | setVals v =>
+      exact ih ⟨v, w.s⟩ hs.1 hwf hs.2
+    | msg m =>
+      have e : stepWorld ord₁ w (.msg m) = stepWorld ord₂ w (.msg m) := by
+        simp only [stepWorld]
+        rw [deliver_perm_invariant ord₁ ord₂ h₁ h₂ w.vals w.s m hv hwf]
+      have hw' : OStateWF (stepWorld ord₁ w (.msg m)).s.oracle := deliver_wf ord₁ w.vals w.s m hwf
+      obtain ⟨i1, i2⟩ := ih (stepWorld ord₁ w (.msg m)) hv hw' hs
+      refine ⟨?_, i2⟩
+      show run ord₁ (stepWorld ord₁ w (.msg m)) rest = run ord₂ (stepWorld ord₂ w (.msg m)) rest
+      rw [← e]; exact i1
+
 /-- non-vacuity of the order hypotheses: the identity and list reversal are permutation-valued -/
 example : (∀ l : List Group, (id l).Perm l) ∧ (∀ l : List Group, (l.reverse).Perm l) :=
   ⟨fun _ => List.Perm.refl _, fun l => List.reverse_perm l⟩
